@@ -157,3 +157,77 @@ def run(ck, prog):
 
 
 EXPLANATION += (" Mahalanobis::new(data): DenseMatrix::cov accumulates centred products (C03's rule, evaluated here as well).")
+
+
+# ------------------------------------------------------------------ Mahalanobis: sigmaInv is the LU inverse of the covariance as given
+_run_pre_precision = run
+
+
+def precision_of_given_sigma(ck, prog):
+    """The form the distance evaluates is (x-y)' sigma^-1 (x-y) with sigma the covariance that was given / estimated: the
+    matrix handed to lu() in mahalanobis.rs is that covariance itself - a parameter, a clone of one, or the result of cov() -
+    and nothing writes into it between its creation and the factorisation (no ridge, no rescaling)."""
+    rule, inst = "E2-provenance", "Mahalanobis: the matrix that is LU-inverted is the covariance as given (no write into it before lu())"
+    n = 0
+    for b in prog.bodies.values():
+        if b.loc[0] != "src/math/distance/mahalanobis.rs" or "::tests::" in b.path:
+            continue
+        for bb, t in b.calls():
+            f = t.get("f")
+            if not f or not f["path"].endswith("LUDecomposableMatrix::lu"):
+                continue
+            a = t["args"][0]
+            if a["k"] not in ("move", "copy"):
+                continue
+            l = a["p"]["l"]
+            # follow `&x` / reborrows back to the matrix local
+            seen = set()
+            while l not in seen:
+                seen.add(l)
+                ds = [d for d in b.defs.get(l, []) if d.kind == "assign"]
+                if len(ds) == 1 and ds[0].data["r"]["k"] == "ref":
+                    l = ds[0].data["r"]["p"]["l"]
+                elif len(ds) == 1 and ds[0].data["r"]["k"] == "use" and ds[0].data["r"]["o"]["k"] in ("move", "copy") \
+                        and not ds[0].data["r"]["o"]["p"]["pr"]:
+                    l = ds[0].data["r"]["o"]["p"]["l"]
+                else:
+                    break
+            n += 1
+            site = b.where(bb)
+            if b.is_arg(l):
+                ck.ok(rule, inst, b.path, site, "lu() is called on a parameter")
+                continue
+            ds = b.defs.get(l, [])
+            writes = [d for d in ds if d.kind in ("mutcall", "store")] + list(b.partial_defs.get(l, []))
+            srcs = [d for d in ds if d.kind in ("assign", "call")]
+            ok_src = len(srcs) == 1 and srcs[0].kind == "call" and srcs[0].data.get("f") and \
+                srcs[0].data["f"]["path"].endswith(("Clone::clone", "::cov", "ToOwned::to_owned"))
+            if writes:
+                w = writes[0]
+                ck.violation(rule, inst, b.path, b.where(w.bb, w.idx),
+                             expected="the covariance is factorised as given: sigmaInv * sigma = I",
+                             found=f"`{b.local_name(l) or '_%d' % l}` is written to before lu() is called on it")
+            elif not ok_src:
+                what = srcs[0].data["f"]["path"] if srcs and srcs[0].kind == "call" and srcs[0].data.get("f") else "a computed value"
+                ck.violation(rule, inst, b.path, site,
+                             expected="lu() is called on the given covariance, a clone of it, or cov(data)",
+                             found=f"`{b.local_name(l) or '_%d' % l}` comes from {what}")
+            else:
+                ck.ok(rule, inst, b.path, site, f"lu() on `{b.local_name(l) or l}` = {srcs[0].data['f']['path'].split('::')[-1]}(..), never written to")
+    if n == 0:
+        ck.note(f"{inst}: no call of lu() in mahalanobis.rs: no instance")
+
+
+def run(ck, prog):
+    _run_pre_precision(ck, prog)
+    precision_of_given_sigma(ck, prog)
+    # the inversion goes through linalg::lu: its singularity / pivot tests are zero tests or relative (C01's E4 binding)
+    from props import C01
+    C01.run_e4(ck, prog, r"^linalg::lu::LUDecomposableMatrix::lu_mut$|^linalg::lu::LU::<T, M>::(new|inverse|solve)$",
+               ["lu_mut", "LU::<T, M>::new", "LU::<T, M>::inverse"])
+
+
+EXPLANATION += (" Mahalanobis constructors: the matrix handed to lu() is the covariance as given (a parameter, a clone, or cov(data)) "
+                "and is not written to before the factorisation; the LU routines it goes through (lu_mut, LU::new, inverse, solve) "
+                "compare data only with zero or with data-derived scales (E4, C01's binding evaluated here as well).")
+TECHNIQUE += "; provenance of the inverted matrix; E4 on the LU routines the constructors call"
